@@ -230,6 +230,10 @@ def cache_job(a):
             # stratum: one negative argument that rounds to -0.0, spelled in every form (a text key shows the sign of a zero, so
             # every spelling has to round it the same way)
             negzero = (k + ci) % 6 == 2
+            # stratum: ==-equal hashable containers of differently typed members, (3.0, 2.54) (3, 2.54) (True, 2.54), rounded deeply by one
+            # decorator: what one call's container rounds to must not be remembered for the next
+            tupwrap = (k + ci) % 8 == 3
+            if tupwrap: deep = True; tol = tol if tol in (0, 1, 2) else 1; kmk = kmk if kmk != 'raw' else ['string', 'pickle', 'md5'][k % 3]
             if negzero: tol = [0, 1][((k + ci) // 6) % 2]; kmk = ['string', 'pickle', 'md5'][(k // 3 + ci) % 3]
             km = {'string': stringmap, 'pickle': picklemap, 'md5': lambda: hashmap(algorithm='md5'), 'raw': keymap}[kmk]()
             kwd = dict(keymap=km, tol=tol, deep=deep)
@@ -245,7 +249,8 @@ def cache_job(a):
                 x = base + r.choice([0, 0.004, 0.04, 0.4, -0.004, 1e-9] if not eqtypes else [0, 0, 0, 0.004])
                 if negzero: x = base
                 if eqtypes and x == base and r.random() < .5: x = int(x) if r.random() < .7 or base != 1.0 else True
-                if r.random() < .3 and (kmk != 'raw' or mod == 'safe'): x = [x, r.choice([1, 'a', 2.55])] if r.random() < .5 else {'q': x}
+                if tupwrap: x = (x, 2.54) if _ % 2 else ((x, 'a'), 2.54)
+                elif r.random() < .3 and (kmk != 'raw' or mod == 'safe'): x = [x, r.choice([1, 'a', 2.55])] if r.random() < .5 else {'q': x}
                 form = r.choice(['pos', 'kw', 'default', 'extra', 'spelled', 'owntol', 'owntol'] if not eqtypes else ['pos', 'pos', 'pos', 'default'])
                 if negzero: form = ['pos', 'kw', 'default', 'spelled', 'extra', 'kw'][_]
                 calls.append((form, x))
